@@ -274,7 +274,7 @@ pub fn random_cfg(rng: &mut Sm, i: usize, saturated: bool) -> MomCfg {
         n_agents,
         id_start: rng.below(500) as u32,
         trade_vol: rng.range(1, 100) as u32,
-        decay: *rng.pick(&[0.2, 0.5, 0.9, 1.0]),
+        decay: *rng.pick(&[0.2, 0.5, 0.9, 1.0, 1.0, 0.0]),
         demand,
         scale: scale_sign * *rng.pick(&[0.5, 2.0, 10.0]),
         order_ratio: *rng.pick(&[0.0, 1.0, 1.0, 3.0, 0.5, 0.25]),
